@@ -7,6 +7,7 @@ Oracle (real code, independent references): exact Taylor identity of the quadrat
 on Born-rule probabilities, central differences for the entropy, generic == fast for every weighting mode and
 outcome counts 2..5 on all four tomographies and both flags, every mode takes effect."""
 import math
+import os
 from fractions import Fraction
 import numpy as np
 import shim  # noqa: F401
@@ -30,6 +31,249 @@ ATOL = q(Settings.get_atol())
 EPS10 = "1/10000000000"
 EPS8 = "1/100000000"
 MODES = ("identity", "custom", "inverse_sample_covariance", "inverse_unbiased_covariance")
+ALIAS = "unbiased_inverse_covariance"       # accepted alias of inverse_unbiased_covariance
+MODES_W = MODES + (ALIAS,)
+
+
+def is_cov(mode):
+    return mode.startswith("inverse") or mode == ALIAS
+
+
+# ----------------------------------------------------------------------------- translator: source -> lean/QGen/C12.lean
+class Untranslatable(Exception):
+    pass
+
+
+def _src(rel):
+    import ast, common
+    path = os.path.join(common.REPO, rel)
+    return ast.parse(open(path, encoding="utf-8").read()), rel
+
+
+def _cls(tree, rel, name):
+    import ast
+    for n in tree.body:
+        if isinstance(n, ast.ClassDef) and n.name == name:
+            return n
+    raise Untranslatable(f"{rel}: class {name} not found")
+
+
+def _meth(cls, rel, name):
+    import ast
+    for n in cls.body:
+        if isinstance(n, ast.FunctionDef) and n.name == name:
+            return n
+    raise Untranslatable(f"{rel}: {cls.name}.{name} not found")
+
+
+def _body(fn):
+    """statements without the docstring"""
+    import ast
+    b = fn.body
+    if b and isinstance(b[0], ast.Expr) and isinstance(b[0].value, ast.Constant) and isinstance(b[0].value.value, str):
+        b = b[1:]
+    return b
+
+
+def _mode_tests(test, where):
+    """`mode_weight == "a"` or an `or` of such -> list of strings"""
+    import ast
+    if isinstance(test, ast.BoolOp) and isinstance(test.op, ast.Or):
+        return [x for v in test.values for x in _mode_tests(v, where)]
+    if (isinstance(test, ast.Compare) and len(test.ops) == 1 and isinstance(test.ops[0], ast.Eq)
+            and isinstance(test.left, ast.Name) and test.left.id == "mode_weight"
+            and isinstance(test.comparators[0], ast.Constant) and isinstance(test.comparators[0].value, str)):
+        return [test.comparators[0].value]
+    raise Untranslatable(f"{where}: unsupported mode test `{ast.unparse(test)}`")
+
+
+def _option_table(rel, clsname):
+    """(accepted mode strings, weights-force-custom) from `<Option>.__init__`"""
+    import ast
+    tree, rel = _src(rel)
+    init = _meth(_cls(tree, rel, clsname), rel, "__init__")
+    accepted, forces = None, False
+    for st in _body(init):
+        if isinstance(st, ast.If):
+            t = ast.unparse(st.test)
+            if t == "weights is not None":
+                if [ast.unparse(x) for x in st.body] != ["mode_weight = 'custom'"] or st.orelse:
+                    raise Untranslatable(f"{rel}:{st.lineno}: unexpected body of `if weights is not None`")
+                forces = True
+            elif (isinstance(st.test, ast.UnaryOp) and isinstance(st.test.op, ast.Not) and isinstance(st.test.operand, ast.Compare)
+                  and isinstance(st.test.operand.ops[0], ast.In) and ast.unparse(st.test.operand.left) == "mode_weight"
+                  and isinstance(st.test.operand.comparators[0], ast.List)):
+                if accepted is not None or not (len(st.body) == 1 and isinstance(st.body[0], ast.Raise)):
+                    raise Untranslatable(f"{rel}:{st.lineno}: unexpected accepted-mode test")
+                accepted = []
+                for e in st.test.operand.comparators[0].elts:
+                    if not (isinstance(e, ast.Constant) and isinstance(e.value, str)):
+                        raise Untranslatable(f"{rel}:{e.lineno}: non-literal mode in the accepted list")
+                    accepted.append(e.value)
+            else:
+                raise Untranslatable(f"{rel}:{st.lineno}: unsupported statement in {clsname}.__init__: `{t}`")
+        elif isinstance(st, ast.Expr) and ast.unparse(st.value).startswith("super().__init__("):
+            pass
+        else:
+            raise Untranslatable(f"{rel}:{st.lineno}: unsupported statement in {clsname}.__init__: `{ast.unparse(st)}`")
+    if accepted is None:
+        raise Untranslatable(f"{rel}: {clsname}.__init__ has no accepted-mode list")
+    return accepted, forces
+
+
+_INV_LOOP = [   # the loop body of the covariance modes, statement by statement (ast.unparse), `{COV}` = the mode split
+    "empi_dist = matrix_util.replace_prob_dist(empi_dist_original)",
+    "{COV}",
+    "weight_matrix = np.zeros(covariance_mat.shape)",
+    "row, col = covariance_mat.shape",
+    "extracted_mat = covariance_mat[:-1, :-1] + np.eye(row - 1) / num_data ** (3 / 2)",
+    "extracted_mat_inv = np.linalg.inv(extracted_mat)",
+    "extracted_mat_inv = (extracted_mat_inv + extracted_mat_inv.T) / 2",
+    "if row == 2 and col == 2:\n    weight_matrix[0, 0] = extracted_mat_inv[0, 0]\nelse:\n    weight_matrix[:row - 1, :col - 1] = extracted_mat_inv",
+    "weight_matrices.append(weight_matrix)",
+]
+
+
+def _branches(rel, clsname, setter):
+    """if/elif chain of `_set_weights_by_mode` -> [(mode string, branch text)], loudly failing on anything else"""
+    import ast
+    tree, rel = _src(rel)
+    fn = _meth(_cls(tree, rel, clsname), rel, "_set_weights_by_mode")
+    body = _body(fn)
+    if len(body) != 1 or not isinstance(body[0], ast.If):
+        raise Untranslatable(f"{rel}:{fn.lineno}: _set_weights_by_mode is not a single if/elif chain")
+    out, node = [], body[0]
+    while True:
+        where = f"{rel}:{node.lineno}"
+        modes = _mode_tests(node.test, where)
+        texts = [ast.unparse(x) for x in node.body]
+        if texts == [f"self.{setter}(None)"]:
+            kinds = {m_: ".reset" for m_ in modes}
+        elif texts == [f"self.{setter}(self.option.weights)"]:
+            kinds = {m_: ".optionWeights" for m_ in modes}
+        elif (len(node.body) == 3 and texts[0] == "weight_matrices = []" and isinstance(node.body[1], ast.For)
+              and texts[2] == f"self.{setter}(weight_matrices)"):
+            loop = node.body[1]
+            if ast.unparse(loop.target) != "(num_data, empi_dist_original)" or ast.unparse(loop.iter) != "data" or loop.orelse:
+                raise Untranslatable(f"{where}: unexpected loop header `{ast.unparse(loop.target)} in {ast.unparse(loop.iter)}`")
+            if len(loop.body) != len(_INV_LOOP):
+                raise Untranslatable(f"{where}: covariance loop has {len(loop.body)} statements, expected {len(_INV_LOOP)}")
+            kinds = {}
+            for st, want in zip(loop.body, _INV_LOOP):
+                if want == "{COV}":
+                    if not (isinstance(st, ast.If) and len(st.body) == 1 and len(st.orelse) == 1):
+                        raise Untranslatable(f"{rel}:{st.lineno}: unexpected covariance split")
+                    first = _mode_tests(st.test, f"{rel}:{st.lineno}")
+                    a, b = ast.unparse(st.body[0]), ast.unparse(st.orelse[0])
+                    pat = "covariance_mat = matrix_util.calc_covariance_mat(empi_dist, %s)"
+                    den = {pat % "num_data": "false", pat % "num_data - 1": "true"}
+                    if a not in den or b not in den:
+                        raise Untranslatable(f"{rel}:{st.lineno}: unexpected covariance denominators `{a}` / `{b}`")
+                    for m_ in modes:
+                        kinds[m_] = f"(.invCov {den[a] if m_ in first else den[b]})"
+                elif ast.unparse(st) != want:
+                    raise Untranslatable(f"{rel}:{st.lineno}: covariance loop statement `{ast.unparse(st)}` != expected `{want}`")
+        else:
+            raise Untranslatable(f"{where}: unsupported branch body {texts}")
+        out += [(m_, kinds[m_]) for m_ in modes]
+        if len(node.orelse) == 1 and isinstance(node.orelse[0], ast.If):
+            node = node.orelse[0]
+        elif not node.orelse:
+            break
+        else:
+            raise Untranslatable(f"{rel}:{node.lineno}: unexpected else branch in _set_weights_by_mode")
+    return out
+
+
+def _wiring_order():
+    """method calls of `set_from_standard_qtomography_option_data`, in order, with their guard"""
+    import ast
+    rel = "quara/loss_function/probability_based_loss_function.py"
+    tree, rel = _src(rel)
+    fn = _meth(_cls(tree, rel, "ProbabilityBasedLossFunction"), rel, "set_from_standard_qtomography_option_data")
+    out = []
+
+    def call(st, guard):
+        if not (isinstance(st, ast.Expr) and isinstance(st.value, ast.Call) and isinstance(st.value.func, ast.Attribute)
+                and ast.unparse(st.value.func.value) == "self"):
+            raise Untranslatable(f"{rel}:{st.lineno}: unsupported wiring statement `{ast.unparse(st)}`")
+        out.append((st.value.func.attr, guard, [ast.unparse(a) for a in st.value.args]))
+    for st in _body(fn):
+        if isinstance(st, ast.Assign) and ast.unparse(st) == "empi_dists = [empi_dist_tmp[1] for empi_dist_tmp in data]":
+            continue
+        if isinstance(st, ast.If):
+            g = ast.unparse(st.test)
+            if g not in ("is_gradient_required", "is_hessian_required") or st.orelse or len(st.body) != 1:
+                raise Untranslatable(f"{rel}:{st.lineno}: unsupported guard `{g}`")
+            call(st.body[0], {"is_gradient_required": "grad", "is_hessian_required": "hess"}[g])
+        else:
+            call(st, "always")
+    want_args = {"set_from_option": ["option"], "set_prob_dists_q": ["empi_dists"], "_set_weights_by_mode": ["option.mode_weight", "data"]}
+    for name, _, args in out:
+        if name in want_args and args != want_args[name]:
+            raise Untranslatable(f"{rel}: {name} called with {args}, expected {want_args[name]}")
+    return [(n_, g_) for n_, g_, _ in out]
+
+
+def _fast_facts():
+    """the cache discipline of the two fast classes as booleans (exact statement lists)"""
+    import ast
+    facts = {}
+    rel = "quara/loss_function/standard_qtomography_based_weighted_probability_based_squared_error.py"
+    tree, rel = _src(rel)
+    c = _cls(tree, rel, "StandardQTomographyBasedWeightedProbabilityBasedSquaredError")
+    facts["fastWseSetterRebuilds"] = [ast.unparse(x) for x in _body(_meth(c, rel, "set_weight_matrices"))] == \
+        ["super().set_weight_matrices(weight_matrices)", "self._calc_extend_weight_matrix()"]
+    first = _body(_meth(c, rel, "_calc_extend_weight_matrix"))[0]
+    facts["fastWseCalcResetsOnNone"] = ast.unparse(first) == "if self.weight_matrices is None:\n    self._extend_weight_matrix = None\n    return"
+    for mname, key in (("set_func_prob_dists_from_standard_qt", "fastWseModelSetterRebuilds"),
+                       ("set_func_gradient_prob_dists_from_standard_qt", "fastWseGradSetterRebuilds")):
+        facts[key] = "self._calc_extend_weight_matrix()" in [ast.unparse(x) for x in _body(_meth(c, rel, mname))]
+    rel2 = "quara/loss_function/standard_qtomography_based_weighted_relative_entropy.py"
+    tree2, rel2 = _src(rel2)
+    c2 = _cls(tree2, rel2, "StandardQTomographyBasedWeightedRelativeEntropy")
+    facts["fastWreSetterRebuilds"] = [ast.unparse(x) for x in _body(_meth(c2, rel2, "set_weights"))] == \
+        ["super().set_weights(weights)", "if self.prob_dists_q is not None:\n    self._calc_extend_weights()"]
+    return facts
+
+
+def translate(ctx):
+    import common
+    try:
+        wse_acc, wse_force = _option_table("quara/loss_function/weighted_probability_based_squared_error.py", "WeightedProbabilityBasedSquaredErrorOption")
+        wre_acc, wre_force = _option_table("quara/loss_function/weighted_relative_entropy.py", "WeightedRelativeEntropyOption")
+        wse_br = _branches("quara/loss_function/weighted_probability_based_squared_error.py", "WeightedProbabilityBasedSquaredError", "set_weight_matrices")
+        wre_br = _branches("quara/loss_function/weighted_relative_entropy.py", "WeightedRelativeEntropy", "set_weights")
+        order = _wiring_order()
+        facts = _fast_facts()
+    except Untranslatable as e:
+        return [f"translator (QGen/C12.lean): {e}"]
+
+    def strs(l):
+        return "[" + ", ".join('"%s"' % x for x in l) + "]"
+
+    def chain(br):
+        return "\n".join(f'  {"if" if i == 0 else "else if"} mode = "{m_}" then some {k}' for i, (m_, k) in enumerate(br)) + "\n  else none"
+    L = ["/-! GENERATED by harness/c12.py:translate from quara/loss_function/*.py on every run — do not edit.",
+         "Mode tables of the option classes, the if/elif chains of `_set_weights_by_mode` (branch kind per mode string; the covariance",
+         "loop is matched statement by statement), the call order of `set_from_standard_qtomography_option_data`, cache discipline of",
+         "the fast classes. -/", "namespace QGen.C12", "",
+         "/-- what a branch of `_set_weights_by_mode` does: setter(None) | setter(option.weights) | covariance loop (`true` = `num_data - 1`) -/",
+         "inductive Branch", "  | reset | optionWeights | invCov (unbiased : Bool)", "deriving DecidableEq, Repr", "",
+         f"def wseAccepted : List String := {strs(wse_acc)}", f"def wseForcesCustom : Bool := {'true' if wse_force else 'false'}",
+         "def wseBranch (mode : String) : Option Branch :=", chain(wse_br), "",
+         f"def wreAccepted : List String := {strs(wre_acc)}", f"def wreForcesCustom : Bool := {'true' if wre_force else 'false'}",
+         "def wreBranch (mode : String) : Option Branch :=", chain(wre_br), "",
+         "/-- (method called on `self`, guard) in source order -/",
+         "def wiringOrder : List (String × String) := [" + ", ".join(f'("{n_}", "{g_}")' for n_, g_ in order) + "]", ""]
+    for k, v in facts.items():
+        L.append(f"def {k} : Bool := {'true' if v else 'false'}")
+    L += ["", "end QGen.C12", ""]
+    path = os.path.join(common.LEAN, "QGen", "C12.lean")
+    new = "\n".join(L)
+    if not os.path.exists(path) or open(path).read() != new:
+        open(path, "w").write(new)
+    return []
 
 
 # ----------------------------------------------------------------------------- generators
@@ -201,7 +445,9 @@ def show_ws(ws):
 
 # ----------------------------------------------------------------------------- correspondence
 def correspondence(ctx):
-    ctx.partial = []
+    ctx.partial = [{"theorem": "QM.C12.gen_wse_accepted_handled_partial",
+                    "missing": "the accepted mode string 'unbiased_inverse_covariance' has no branch in _set_weights_by_mode (open finding D9f, "
+                               "negation witness gen_wse_accepted_handled_fails)"}]
     ctx.notes.append("hessian of the fast losses raises NotImplementedError by design; fast = generic is proved for value and gradient")
     drv = Driver("C12")
     pend = []
@@ -303,20 +549,19 @@ def correspondence(ctx):
         grad_req = bool(t % 4 != 3)
         res_g = res_f = None
         for r in range(rounds):
-            mode = MODES[int(gw.integers(0, 4))]
+            mode = MODES_W[int(gw.integers(0, len(MODES_W)))]
             data = make_data(gw, ps, int(gw.integers(5, 200)), zeros=bool(r % 2))
             Wc = sym_weights(gw, S, m) if mode == "custom" else None
             seq.append(mode)
             ginvs = []
-            if mode.startswith("inverse"):
+            if is_cov(mode):
                 for (n, f) in data:
                     ft = mu.replace_prob_dist(f)
                     cov = mu.calc_covariance_mat(ft, n if mode == "inverse_sample_covariance" else n - 1)
                     ex = cov[:-1, :-1] + np.eye(m - 1) / (n ** (3 / 2))
                     ginvs.append(np.linalg.inv(ex))
                     if r == 0 and t < 8:
-                        ask("extracted", (m, f.tolist(), n, mode), [float(v) for v in ex.flatten()], "extracted", m, qlist(f), EPS8,
-                            n if mode == "inverse_sample_covariance" else n - 1, q(n ** (3 / 2)))
+                        ask("extracted", (m, f.tolist(), n, mode), [float(v) for v in ex.flatten()], "extracted", mode, m, qlist(f), EPS8, n, q(n ** (3 / 2)))
             toks += [mode] + toks_weights(Wc) + [len(ginvs)] + [qlist(G.flatten()) for G in ginvs]
             for which, l, ocls in (("g", lg, WSEO), ("f", lf, FWSEO)):
                 if (which == "g" and res_g is not None) or (which == "f" and res_f is not None):
@@ -600,6 +845,36 @@ def check_conf(ctx, kind, flag, m, salt):
                 done = True
                 break
         ctx.count(f"mode {mode} m={mm} " + ("evaluated" if done else "never accepted"))
+    # every mode string the option class ACCEPTS must configure something (accepted list taken from the generated table)
+    try:
+        import re as _re
+        gen = open(os.path.join(os.path.dirname(os.path.dirname(os.path.abspath(__file__))), "lean", "QGen", "C12.lean")).read()
+        accepted = _re.findall(r'"(\w+)"', gen.split("def wseAccepted")[1].split("\n")[0])
+    except Exception:  # noqa
+        accepted = list(MODES)
+    for mode in accepted:
+        if mode in MODES:
+            continue
+        l = WSE(nv)
+        try:
+            l.set_from_standard_qtomography_option_data(qt, WSEO(mode), data, True, False)
+            v = float(l.value(x))
+        except Exception as e:  # noqa
+            ctx.violate(f"C12/wse/accepted-mode/{mode}/raises", f"{type(e).__name__}: {e}", {**rep, "mode": mode}); continue
+        v_id = sum((p - f) @ (p - f) for p, f in zip(_born_at(qt, kind, testers, x), qs))
+        if l.weight_matrices is None and close(v, v_id, 1e-12):
+            ctx.violate(f"C12/wse/accepted-mode-unhandled/{mode}",
+                        f"mode '{mode}' is accepted by the option but configures nothing: no weight matrices, value {v} = unweighted value", {**rep, "mode": mode})
+            continue
+        if mode == ALIAS:      # the alias means the unbiased covariance weights; fast loss likewise
+            Wref = inv_cov_reference(data, "inverse_unbiased_covariance")
+            ref = sum((p - f) @ (Wref[j] @ (p - f)) for j, (p, f) in enumerate(zip(_born_at(qt, kind, testers, x), qs)))
+            lf = FWSE(nv)
+            lf.set_from_standard_qtomography_option_data(qt, FWSEO(mode), data, True, False)
+            if not close(v, ref, 1e-7) or not close(float(lf.value(x)), ref, 1e-7) or \
+                    not np.allclose(lf.gradient(x), l.gradient(x), rtol=1e-8, atol=1e-10):
+                ctx.violate(f"C12/wse/mode-takes-effect/{mode}", f"mode '{mode}' ({tag}): generic {v}, fast {float(lf.value(x))} vs the "
+                            f"unbiased inverse-covariance definition {ref}", {**rep, "mode": mode})
     # relative entropy: custom weights given through the option
     if min(float(np.min(p)) for p in pb) > 0.02:
         wopt = [float(v) for v in g.integers(2, 6, size=S)]
